@@ -60,6 +60,14 @@ def bias_world(r, W, anp):
         for i, sel in enumerate([{'matchExpressions': [{'key': gen.NSKEY, 'operator': 'In', 'values': [nsx]}]}, {'matchLabels': {gen.NSKEY: nsx}}]):
             W['netpols'].append({'ns': w['ns'], 'name': 'spell%d' % i, 'podSelector': {}, 'policyTypes': ['Egress'],
                                  'egress': [{'to': [{'namespaceSelector': sel}], 'ports': [{'port': 1 + i}]}]})
+    if r.random() < 0.3:
+        # a Route and an Ingress that certainly yield {ingress-controller} lines: own namespace without policies
+        W['workloads'].append({'kind': 'Deployment', 'ns': 'nsr', 'name': 'wr', 'labels': {'app': 'r'}, 'replicas': 1, 'owner': None, 'omit_ns': False,
+                               'ports': [{'port': 8080, 'proto': 'TCP', 'name': 'web'}, {'port': 9090, 'proto': 'TCP', 'name': ''}]})
+        motif = [{'kind': 'Service', 'ns': 'nsr', 'name': 'svcr', 'selector': {'app': 'r'}, 'ports': [{'name': 'p', 'port': 80, 'targetPort': 8080}, {'name': 'q', 'port': 81, 'targetPort': 9090}]},
+                 {'kind': 'Route', 'ns': 'nsr', 'name': 'rtr', 'port': 8080, 'to': ['Service', 'svcr'], 'alts': []},
+                 {'kind': 'Ingress', 'ns': 'nsr', 'name': 'ingr', 'default': None, 'rules': [[{'svc': 'svcr', 'pname': 'q', 'pnum': 0}]]}]
+        W['others'] = (W.get('others') or []) + [c10.manifest(o) for o in motif]
     if r.random() < 0.5 and W['workloads']:
         # Services, Ingresses and Routes: the analyzer fills three maps from them, in document order
         for w in W['workloads']:
